@@ -141,18 +141,42 @@ class UnitResult(dict):
     pass
 
 
+UNIT_DEADLINE = int(os.environ.get('VERIF_UNIT_DEADLINE', '0') or 0) or (270 if TIER != 'thorough' else 3300)
+
+
+class UnitTimeout(Exception):
+    pass
+
+
+def _alarm(signum, frame):
+    raise UnitTimeout()
+
+
 def run_unit(fn, args):
     """executed in a worker process"""
+    import signal
     t0 = time.time()
+    try:
+        signal.signal(signal.SIGALRM, _alarm)
+        signal.alarm(UNIT_DEADLINE)
+    except ValueError:
+        pass
     try:
         r = fn(*args)
         r.setdefault('status', 'pass')
+    except UnitTimeout:
+        r = dict(status='inconclusive', error='unit exceeded its time cap of %d s (symbolic execution or solving did not finish)' % UNIT_DEADLINE)
     except Unsupported as e:
         r = dict(status='inconclusive', error='unsupported MIR construct: %s' % e, tb=traceback.format_exc()[-1500:])
     except EngineError as e:
         r = dict(status='inconclusive', error='engine: %s' % e, tb=traceback.format_exc()[-1500:])
     except Exception as e:   # noqa
         r = dict(status='inconclusive', error='%s: %s' % (type(e).__name__, e), tb=traceback.format_exc()[-2500:])
+    finally:
+        try:
+            signal.alarm(0)
+        except ValueError:
+            pass
     r['wall'] = round(time.time() - t0, 2)
     return r
 
